@@ -56,8 +56,8 @@ ViewIdeal(v, tree) == Accepted(v) /\ HasProj(v) /\ "errs" \notin DOMAIN v.proj /
 (* in Open.                                                                *)
 (***************************************************************************)
 
-\* "no-line-end-normalization": 2.11 is not applied to content, comments and PI data (CR stays
-\* CR, CR LF stays CR LF).  As-is machine: the same token machine with its line-end handling
+\* "no-line-end-normalization": 2.11 is not applied to content, comments, PI data and the literal
+\* values of entities included in content (CR stays CR, CR LF stays CR LF).  As-is machine: the same token machine with its line-end handling
 \* switched off (state field eol = FALSE).  Attribute values are not affected (3.3.3 turns a
 \* literal CR into a space either way).
 NoEolInit == [InitState EXCEPT !.eol = FALSE]
@@ -65,6 +65,7 @@ HasLiteralCr(toks) ==
   \E i \in 1..Len(toks) :
      \/ (toks[i].k = "text" /\ \E j \in 1..Len(toks[i].items) : toks[i].items[j].t = "c" /\ toks[i].items[j].c = 13)
      \/ (toks[i].k \in {"ws", "cdata", "comment", "pi"} /\ 13 \in Range(toks[i].v))
+     \/ (toks[i].k = "entity" /\ \E j \in 1..Len(toks[i].v) : toks[i].v[j].t = "c" /\ toks[i].v[j].c = 13)
 
 \* "required-attribute-materialized": an attribute declared #REQUIRED that is not written appears
 \* all the same, with the empty value and specified = false (pinned by the repository's own test
